@@ -1,4 +1,4 @@
 SPECIFICATION Spec
-CONSTANTS NG = 2 Cap = 2 MaxSl = 1 MaxOps = 5 ZeroToCap = FALSE AllowShrink = TRUE
+CONSTANTS NG = 2 Cap = 2 MaxSl = 1 MaxOps = 5 ZeroToCap = FALSE AllowShrink = TRUE AllowGrow = FALSE ResizePutsOld = FALSE
 INVARIANTS NotBad
 CHECK_DEADLOCK FALSE
